@@ -9,6 +9,9 @@ CLAIMED = {
  "C02": ("model_checking", "same TLA+ specification must explain every table/mode/API configuration (product + trace validation); refusals classified",
          "Configuration is absent from the abstract state: MC_Product must hold for the tables of every table option x -7/-8 x -I/-B x REJECT combination, and traces of nr/reentrant x %array/%pointer builds must be accepted by the same Trace_Scanner; unsupported combinations must be refused with the documented message, and every accepted one must compile.",
          "configurations x rule sets sampled beyond the fixed lattice; C++/c99 back ends covered in C12/C19 harnesses", "5 C02"),
+ "C03": ("model_checking", "trace validation with the no-over-read enabling condition of Read (FlexScanner!Read, MatchDecided) under all read schedules, buffer sizes and delivery paths",
+         "Every Read event of a recorded execution must be enabled in FlexScanner: the scanner may ask its source for input only while the current match is undecided given the bytes already delivered (interactive: jam or a state without outgoing transitions; batch: jam).  Executions under buffer sizes 1..64, read-size patterns from 1 byte to everything, the harness's YY_INPUT, the scanner's own stdio YY_INPUT (cookie streams) and yy_scan_bytes/yy_scan_buffer delivery must all be behaviours of the same machine, i.e. give the tokens the specification determines from the bytes alone.",
+         "inputs without NUL for the strict clause (open finding nul-overread); read(2) path (%option read) not exercised", "5 C03"),
  "C04": ("model_checking", "product check with NUL/high bytes in the alphabet in every table mode + trace validation with NULs at all buffer offsets",
          "MC_Product includes byte 0 (through YY_NUL_EC / yy_NUL_trans) and high bytes for nul/high/7-bit rule-set families in compressed, full and full-speed tables, interactive and batch, REJECT or not; recorded executions with NUL-rich inputs, buffer sizes 1..8 and 1..3 byte reads must be behaviours of FlexScanner.",
          "sampled rule sets/inputs; 7-bit scanners only fed 7-bit input", "5 C04"),
@@ -27,6 +30,12 @@ CLAIMED = {
  "C09": ("model_checking", "trace validation of yylineno at every action, return and edit (LinenoExact in FlexScanner) over all newline-capable pattern forms",
          "For every syntactic form by which a rule can match a newline (literal, escapes, string, class, negated class, range, POSIX class and negation, (?s:.), {-}/{+}, definition, closure, trailing context, $, default rule) and for sampled rule sets, recorded executions must show yylineno = 1 + newlines consumed net of yyless/trailing context/yyunput/REJECT, plus yyinput; without the option the value never changes.",
          "inputs and edit histories sampled", "5 C09"),
+ "C10": ("model_checking", "trace validation of end-of-input behaviour (WrapEnter/WrapRet/EofAct/AtEof, Restart, SetYyin, Call after termination) against FlexScanner",
+         "Recorded executions with several input sources, scripted yywrap() behaviours (stop; new yyin; create+switch; yy_scan_*; delete-then-install), <<EOF>> rules per start condition and post-termination calls (yylex again, new yyin, yyrestart) must be behaviours of FlexScanner: yywrap only when nothing is pending, the <<EOF>> action of the current condition (unqualified rule = those lacking one), continuation in the unchanged start condition at beginning of line with nothing lost from either source.",
+         "scenarios sampled (seeded)", "5 C10"),
+ "C11": ("model_checking", "trace validation of multi-buffer histories (create/scan_*/switch/push/pop/flush/delete/restart from actions, yywrap and between calls) against FlexScanner's per-buffer records",
+         "Every buffer owns its pending text, at-bol flag, source and (reentrant) line number in the specification; recorded executions mixing yy_create_buffer, yy_scan_string/bytes/buffer (incl. the NULL result for a buffer lacking its two NULs), yy_switch_to_buffer, yypush/yypop_buffer_state, yy_flush_buffer, yy_delete_buffer and yyrestart, from inside actions, from yywrap and between yylex calls, must be behaviours of it (nothing lost, duplicated or reordered; resume exactly where stopped).",
+         "scenarios sampled (seeded); deleting the current buffer only through yypop_buffer_state", "5 C11"),
  "C17": ("model_checking", "exact reachability of 'rule r is selected' in the TLA+ reference automaton (TLC) compared with flex's warnings",
          "TLC enumerates every reachable item state of the reference automaton from every start state; the set of selectable rules is compared with flex's 'rule cannot be matched' and -s default-rule warnings (iff for plain rule sets, no-false-warning for REJECT/variable trailing context).",
          "rule sets sampled", "5 C17"),
